@@ -32,9 +32,14 @@
 // Label F..: only `k F <number of ops>` is printed at the end of the case.
 // The property's own statement is evaluated after EVERY op of EVERY case, independently of the model: the witness (client 0,
 // while attached and reading) sends a PR_COMMAND_PING and must receive its PR_RESULT_PONG within PING_ROUNDS event-loop turns;
-// a handler that does not return within the watchdog time is reported as `k ORACLE FAIL hang op#j <op>` and ends the process.
+// a handler that does not return within the watchdog time is reported as `k ORACLE FAIL hang op#j <op>` and ends the process;
+// one op (dispatch + pump to quiescence) that burns more than C07_CPU_BUDGET_S (default 3) seconds of PROCESS CPU TIME -- a
+// measure that does not depend on how loaded the machine is; ordinary ops take milliseconds -- is reported as
+// `k ORACLE FAIL slow-handler op#j <op>`: the single-threaded server answered nobody during that time.
 #include <signal.h>
 #include <unistd.h>
+#include <time.h>
+#include <sys/resource.h>
 #include "refl_common.h"
 #include "regex/PathMatcher.h"
 #include "regex/QueryFilter.h"
@@ -74,6 +79,15 @@ static volatile long g_case = -1;
 static volatile int g_op = -1;
 static char g_opText[200];
 static int g_watchdogSecs = 20;
+static double g_cpuBudget = 3.0;
+static double g_maxCpu = 0.0;
+
+static double CpuNow()
+{
+   struct timespec ts;
+   if (clock_gettime(CLOCK_PROCESS_CPUTIME_ID, &ts) != 0) return 0.0;
+   return (double)ts.tv_sec + ((double)ts.tv_nsec)/1e9;
+}
 
 static void OnAlarm(int)
 {
@@ -631,9 +645,13 @@ struct Runner
          g_op = j;
          strncpy(g_opText, ops[oi].c_str(), sizeof(g_opText)-1); g_opText[sizeof(g_opText)-1] = '\0';
          alarm((unsigned) g_watchdogSecs);
+         const double cpu0 = CpuNow();
          const bool valid = DoOp(ops[oi]);
          const int rounds = Pump();
+         const double cpu = CpuNow()-cpu0;
+         if (cpu > g_maxCpu) g_maxCpu = cpu;
          if (rounds >= 400) printf("%ld ORACLE FAIL no-quiescence op#%d %s\n", k, j, g_opText);
+         if (cpu > g_cpuBudget) printf("%ld ORACLE FAIL slow-handler op#%d %s\n", k, j, g_opText);
          if (modelled) PrintState(j, Split(ops[oi], ':')[0], valid);
          else for (size_t ci=0; ci<w.NumSessions(); ci++) w.client(ci).inbox.clear();
          WitnessPing(j, g_opText);
@@ -657,6 +675,8 @@ int main(int, char **)
    QuietLogs();
    const char * ws = getenv("C07_WATCHDOG_S");
    if ((ws)&&(atoi(ws) > 0)) g_watchdogSecs = atoi(ws);
+   const char * cb = getenv("C07_CPU_BUDGET_S");
+   if ((cb)&&(atof(cb) > 0.0)) g_cpuBudget = atof(cb);
    signal(SIGALRM, OnAlarm);
    std::string line;
    long k = 0;
@@ -666,6 +686,11 @@ int main(int, char **)
       {Runner r(k); r.Run(line);}
       k++;
       fflush(stdout);
+   }
+   if (getenv("C07_REPORT_CPU"))
+   {
+      struct rusage ru; getrusage(RUSAGE_SELF, &ru);
+      fprintf(stderr, "C07 max op cpu %.3f s, maxrss %ld MB\n", g_maxCpu, ru.ru_maxrss/1024);
    }
    return 0;
 }
